@@ -31,7 +31,17 @@ func (ex *Exec) callWithValues(fr *frame, st *State, reach *Term, c *ssa.CallCom
 	case *Closure:
 		return ex.callFunc(fr, st, reach, f.fn, f.bindings, args, instr, exits, c)
 	case *Term:
-		// dynamic function value
+		// dynamic function value: contract of its named function type, if any
+		if n, ok := types.Unalias(c.Value.Type()).(*types.Named); ok && n.Obj().Pkg() != nil {
+			if fc, ok := ex.eng.cs.FuncTypes[n.Obj().Pkg().Path()+"."+n.Obj().Name()]; ok {
+				nonnil := Not(Eq(f, IntLit(0)))
+				if ex.safety {
+					ex.safeOblige(fr, reach, nonnil, "nil-func", instr)
+				}
+				ex.vc.Assume(reach, nonnil)
+				return ex.applyIfaceContract(fr, st, reach, c, fc, f, args, instr)
+			}
+		}
 		return ex.unknownCall(fr, st, reach, "dynamic function value "+c.Value.Name(), c.Signature().Results(), instr, false), reach
 	}
 	ex.unsupportedAt(instr, fmt.Sprintf("call through %T", fnv))
